@@ -14,6 +14,7 @@ import Smpp.Proofs.SmsSpec
 import Smpp.Properties.SmsSource
 import Smpp.Generated.SmsFacts
 import Smpp.Generated.Gsm7Facts
+import Smpp.Proofs.SmsAlnum
 
 namespace Smpp.Properties.C19
 open Smpp Smpp.Sms Smpp.Time Smpp.Generated Smpp.Spec.Gsm0340
@@ -164,6 +165,72 @@ theorem C19_address_numeric_encode (rev : List Nat) (escs : List (Nat × Nat)) (
   unfold writeAddr addrBinary encodeSemiAddress addressField
   simp only [hne, Bool.false_eq_true, ↓reduceIte, hton5, ne_eq, not_false_eq_true, hall, hdig, Option.getD_some,
     packDigits_spec ds hds, hutf, hb3]
+
+/-! ## alphanumeric addresses (TON 101) outside the known deviation class
+
+`Proofs/SmsAlnum.lean` shows that the specification's septet packing with zero fill bits IS the library's packing whenever the
+library adds no CR filler, and C08's round-trip theorem gives the decoding.  Septet counts 4..7 are the known finding
+C19-alnum-4to7 (the witness `C19_cex_alnum` below); a text ending in CR with a multiple of eight septets is C08's documented
+ambiguity. -/
+
+/-- the regenerated GSM 7-bit tables are well-formed (as in C08) -/
+theorem gsm_tables_ok : Smpp.Gsm7.tablesOK gsmReverse gsmEscapes = true := by decide +kernel
+
+open Smpp.Gsm7 in
+/-- **alphanumeric address, encoding**: what Address.WriteTo writes for such a text is the specification's field
+(Address-Length = useful semi-octets, TON 101, septets packed with zero fill bits) -/
+theorem C19_address_alnum_encode (npi : Nat) (t s : List Nat) (hnpi : npi < 16) (h : AlnumAddr t s) :
+    writeAddr gsmReverse gsmEscapes ⟨UInt8.ofNat npi, 5, t⟩ = addressField ⟨5, npi, .alpha s⟩ := by
+  obtain ⟨henc, hlen, _, hne⟩ := alnum_encode_pack t s h
+  obtain ⟨_, _, hb3⟩ := toa_bits ⟨5, by omega⟩ ⟨npi, hnpi⟩
+  simp only at hb3
+  have hemp : t.isEmpty = false := by cases t <;> simp_all
+  have h7 : s.length % 8 ≠ 7 := by
+    have := h.len
+    simp only [List.mem_cons, List.not_mem_nil, or_false] at this
+    omega
+  unfold writeAddr addrBinary addressField
+  simp only [hemp, Bool.false_eq_true, ↓reduceIte, ne_eq, not_true_eq_false, henc, Option.getD_some, hlen,
+    packSeptets_eq_pack s h7]
+  have hk : ((UInt8.ofNat npi &&& (0x0F : UInt8)) ||| (((5 : UInt8) &&& (0x07 : UInt8)) <<< (4 : UInt8)) ||| (0x80 : UInt8)) = toa 5 npi := hb3
+  rw [hk]
+  have hL : UInt8.ofNat ((7 * s.length + 7) / 8) * 2 = UInt8.ofNat ((7 * s.length + 3) / 4) := by
+    have := h.len
+    simp only [List.mem_cons, List.not_mem_nil, or_false] at this
+    rcases this with h1 | h1 | h1 | h1 | h1 | h1 | h1 <;> rw [h1] <;> decide
+  rw [hL]
+
+open Smpp.Gsm7 in
+/-- **alphanumeric address, decoding**: the TP-OA / TP-DA field the specification lays out for such a text decodes to
+exactly that text with TON 101 and the plan — unless the text ends in CR with a multiple of eight septets, where the
+library's filler rule (C08) takes the CR for padding -/
+theorem C19_address_alnum_decode (npi : Nat) (t s : List Nat) (rest : Bytes) (hnpi : npi < 16) (h : AlnumAddr t s)
+    (hcr : ¬ (s.length % 8 = 0 ∧ t.getLast? = some 13)) :
+    readAddr gsmReverse gsmEscapes (addressField ⟨5, npi, .alpha s⟩ ++ rest) = .ok (⟨UInt8.ofNat npi, 5, t⟩, rest) := by
+  obtain ⟨henc, hlen, hpne, hne⟩ := alnum_encode_pack t s h
+  obtain ⟨hb1, hb2, _⟩ := toa_bits ⟨5, by omega⟩ ⟨npi, hnpi⟩
+  simp only at hb1 hb2
+  have h7 : s.length % 8 ≠ 7 := by
+    have := h.len
+    simp only [List.mem_cons, List.not_mem_nil, or_false] at this
+    omega
+  obtain ⟨hhalf, hl0⟩ := alnum_halflen s.length h.len
+  have hdec : decode gsmReverse gsmEscapes (pack s) = some t := by
+    rcases decode_encode gsm_tables_ok t (pack s) henc with hd | ⟨s', hs', h0, hlast, _⟩
+    · exact hd
+    · have : s' = s := by
+        have := h.septets; rw [hs'] at this; exact (Option.some.inj this)
+      subst this
+      exact absurd ⟨h0, hlast⟩ hcr
+  unfold readAddr addressField
+  simp only [List.cons_append, rdByte, hl0, ↓reduceIte, hb1, hb2, hhalf, packSeptets_eq_pack s h7]
+  rw [← hlen, rdN_exact _ _ hpne]
+  simp only [decodeNo, ne_eq, hdec]
+  rfl
+
+
+/-- non-vacuity: "Café Sol" — eight septets, one of them a national character whose septet differs from its code point -/
+example : AlnumAddr [67, 97, 102, 233, 32, 83, 111, 108] [67, 97, 102, 5, 32, 83, 111, 108] := ⟨by decide +kernel, by decide⟩
 
 /-! ## time stamp -/
 
